@@ -7,6 +7,7 @@ import (
 	"golang.org/x/tools/go/ssa"
 
 	"wvsa/internal/facts"
+	"wvsa/internal/load"
 )
 
 func init() {
@@ -28,6 +29,11 @@ func c16(c *Ctx) {
 		}
 	})
 	if upd == nil {
+		// the same transaction spelled out: NewTransaction(true), one plain Set, blocking Commit
+		if c16manualTxn(c, p, st) {
+			c16onDisk(c, p)
+			return
+		}
 		R.Fail("C16.ack-implies-commit", "C16.ack-implies-commit/StoreSignedVAA/update", c.rel(p.Pos(st.Pos())), "write transaction", "no (*badger.DB).Update call in StoreSignedVAA")
 		return
 	}
@@ -86,6 +92,60 @@ func c16(c *Ctx) {
 		})
 	}
 	R.Check("C16.synchronous", "C16.synchronous/StoreSignedVAA", c.rel(p.Pos(st.Pos())), "the write happens on the caller's goroutine inside db.Update before StoreSignedVAA returns", bad == "", bad)
+	c16onDisk(c, p)
+}
+
+// c16manualTxn accepts `txn := db.NewTransaction(true); defer txn.Discard(); txn.Set(k, v); txn.Commit()`
+// (the body of badger's Update) and checks the same obligations on it.
+func c16manualTxn(c *Ctx, p *load.Program, st *ssa.Function) bool {
+	R := c.R
+	var nt, set, commit *ssa.Call
+	nwrites := 0
+	bad := ""
+	eachInstr(st, func(i ssa.Instruction) {
+		switch x := i.(type) {
+		case *ssa.Go:
+			bad = "go statement"
+		case *ssa.Defer:
+			if n := facts.CalleeName(&x.Call); n != "(*badger.Txn).Discard" {
+				bad = "deferred " + n
+			}
+		case *ssa.Call:
+			n := facts.CalleeName(&x.Call)
+			switch {
+			case n == "(*badger.DB).NewTransaction":
+				nt = x
+			case strings.HasPrefix(n, "(*badger.Txn).Set"):
+				nwrites++
+				if n == "(*badger.Txn).Set" {
+					set = x
+				}
+			case n == "(*badger.Txn).Commit":
+				commit = x
+			case strings.Contains(n, "WriteBatch") || strings.Contains(n, "WithTTL") || strings.Contains(n, "CommitWith"):
+				bad = n
+			}
+		}
+	})
+	if nt == nil || set == nil || commit == nil {
+		return false
+	}
+	upd, _ := nt.Call.Args[1].(*ssa.Const)
+	R.Check("C16.synchronous", "C16.synchronous/one-plain-set", c.rel(p.Pos(st.Pos())), "the read-write transaction performs exactly one plain txn.Set (no SetEntry/TTL) on the caller's goroutine", nwrites == 1 && bad == "" && upd != nil && upd.Value != nil && upd.Value.ExactString() == "true" && set.Call.Args[0] == ssa.Value(nt) && commit.Call.Args[0] == ssa.Value(nt), fmt.Sprintf("%d writes; %s", nwrites, bad))
+	R.Check("C16.synchronous", "C16.synchronous/StoreSignedVAA", c.rel(p.Pos(st.Pos())), "the write happens on the caller's goroutine before StoreSignedVAA returns", bad == "", bad)
+	n := 0
+	for _, r := range acceptingReturns(st) {
+		n++
+		fs := acceptFacts(r)
+		ok := facts.HasAtom(fs, facts.Term(set)+" == nil") && facts.HasAtom(fs, facts.Term(commit)+" == nil")
+		R.Check("C16.ack-implies-commit", R.Key("C16.ack-implies-commit", shortFn(st), "return:nil"), c.rel(p.Pos(instrPos(r))), "StoreSignedVAA acknowledges (returns nil) only after txn.Set and the blocking txn.Commit succeeded", ok, "missing fact Set(...) == nil or Commit() == nil", facts.Atoms(fs)...)
+	}
+	R.Floor("C16.ack-implies-commit", n, 1)
+	return true
+}
+
+func c16onDisk(c *Ctx, p *load.Program) {
+	R := c.R
 	// ---- on-disk
 	nopen := 0
 	for _, s := range callsNamed(p, "", "badger.Open") {
